@@ -40,7 +40,7 @@ func NewSolver(work string, seed int, quick, full int) *Solver {
 	return &Solver{WorkDir: work, Seed: seed, QuickSecs: quick, FullSecs: full, Stats: map[string]int{}, Time: map[string]float64{}}
 }
 
-func (x *Exec) script(o *Obl, inputs []ModelVar) string {
+func (x *Exec) script(o *Obl, inputs []ModelVar, skipReveal bool) string {
 	// Select the assertions that matter: every non-definitional one, and the definitions
 	// (= fresh-symbol term) whose symbol is (transitively) used. Dropping an unused definition of a
 	// fresh symbol keeps the query equisatisfiable and much smaller.
@@ -53,6 +53,9 @@ func (x *Exec) script(o *Obl, inputs []ModelVar) string {
 	}
 	keep := make([]bool, len(o.PC))
 	for i, p := range o.PC {
+		if skipReveal && p.Reveal {
+			continue
+		}
 		if p.Def == "" {
 			keep[i] = true
 			symbolsOf(p.S, used)
@@ -90,8 +93,10 @@ func (x *Exec) script(o *Obl, inputs []ModelVar) string {
 	for _, a := range o.Axioms {
 		fmt.Fprintf(&b, "(assert %s)\n", a.S)
 	}
+	emitted := map[string]bool{}
 	for i, p := range o.PC {
-		if keep[i] {
+		if keep[i] && !emitted[p.S] {
+			emitted[p.S] = true
 			fmt.Fprintf(&b, "(assert %s)\n", p.S)
 		}
 	}
@@ -126,6 +131,12 @@ func (x *Exec) finalize(obls []*Obl) {
 		decls = x.D.Text()
 	}
 	ax = append(ax, x.axioms...)
+	if x.needElemAxiom {
+		// an element of a backing array that existed at entry existed at entry
+		x.D.Fun("elemref", SInt, Sym("b", SInt), Sym("i", SBV64))
+		decls = x.D.Text()
+		ax = append(ax, &Term{S: fmt.Sprintf("(forall ((b Int) (i (_ BitVec 64))) (! (=> (<= b (* %d |alloc0|)) (<= (elemref b i) (* %d |alloc0|))) :pattern ((elemref b i))))", refK, refK), Sort: SBool})
+	}
 	for _, o := range obls {
 		o.Decls = decls
 		o.D = x.D
@@ -149,7 +160,18 @@ var solverSpecs = []solverSpec{
 	{"cvc5-1.0", func(f string, s, seed int) []string {
 		return []string{"cvc5", "--lang", "smt2", fmt.Sprintf("--tlimit=%d", s*1000), "--produce-models", fmt.Sprintf("--seed=%d", seed), f}
 	}},
+	// E-matching only (no model-based instantiation): decides quantifier-heavy goals the default
+	// configuration loses itself in; with quantifiers present it answers unsat or unknown, never sat
+	{"z3-5.1.0-ematch", func(f string, s, seed int) []string {
+		return []string{"z3-new", "-smt2", fmt.Sprintf("-T:%d", s), fmt.Sprintf("smt.random_seed=%d", seed), "smt.mbqi=false", f}
+	}},
+	{"z3-5.1.0-ematch-eager", func(f string, s, seed int) []string {
+		return []string{"z3-new", "-smt2", fmt.Sprintf("-T:%d", s), fmt.Sprintf("smt.random_seed=%d", seed), "smt.mbqi=false", "smt.qi.eager_threshold=50", "smt.relevancy=0", f}
+	}},
 }
+
+// proofOnly: configurations whose "sat" is not used (only their refutations count)
+func proofOnly(name string) bool { return strings.Contains(name, "-ematch") }
 
 func runSolver(ctx context.Context, sp solverSpec, file string, secs, seed int) (status, raw string, dur float64) {
 	args := sp.args(file, secs, seed)
@@ -248,6 +270,45 @@ func parseModel(raw string) map[string]string {
 	return m
 }
 
+// SolveLite tries to refute a weakened query (some hypotheses left out) within the quick limit;
+// nil when it is not refuted.
+func (s *Solver) SolveLite(name string, script string) *SolveResult {
+	s.mu.Lock()
+	s.n++
+	id := s.n
+	s.mu.Unlock()
+	file := filepath.Join(s.WorkDir, fmt.Sprintf("q%05d-lite.smt2", id))
+	os.WriteFile(file, []byte("; "+name+" (without opaque definitions)\n"+script), 0o644)
+	ctx, cancel := context.WithCancel(context.Background())
+	defer cancel()
+	type res struct {
+		st, raw, name string
+		d             float64
+	}
+	specs := []solverSpec{solverSpecs[0], solverSpecs[1]}
+	ch := make(chan res, len(specs))
+	for _, sp := range specs {
+		sp := sp
+		go func() {
+			st, raw, d := runSolver(ctx, sp, file, s.QuickSecs, s.Seed)
+			ch <- res{st, raw, sp.name, d}
+		}()
+	}
+	for range specs {
+		r := <-ch
+		s.mu.Lock()
+		s.Time[r.name] += r.d
+		s.mu.Unlock()
+		if r.st == "unsat" {
+			s.mu.Lock()
+			s.Stats[r.name+":unsat"]++
+			s.mu.Unlock()
+			return &SolveResult{Status: "unsat", Backend: r.name, Secs: r.d, Raw: r.raw, File: file}
+		}
+	}
+	return nil
+}
+
 // Solve decides one obligation instance.
 func (s *Solver) Solve(name string, script string, expectSat bool) *SolveResult {
 	s.mu.Lock()
@@ -297,6 +358,9 @@ func (s *Solver) Solve(name string, script string, expectSat bool) *SolveResult 
 	var all []string
 	for i := 0; i < len(solverSpecs); i++ {
 		r := <-ch
+		if r.st == "sat" && proofOnly(r.name) {
+			r.st = "unknown"
+		}
 		all = append(all, fmt.Sprintf("[%s] %s (%.2fs)", r.name, r.st, r.d))
 		if r.st == "unsat" || r.st == "sat" {
 			cancel()
@@ -337,6 +401,7 @@ func (s *Solver) DischargeAll(x *Exec, obls []*Obl, par int) []*OblResult {
 	type job struct {
 		o      *Obl
 		script string
+		lite   string
 	}
 	byName := map[string][]*Obl{}
 	var order []string
@@ -368,7 +433,15 @@ func (s *Solver) DischargeAll(x *Exec, obls []*Obl, par int) []*OblResult {
 						continue
 					}
 				}
-				r := s.Solve(j.o.Name, j.script, j.o.ExpectSat)
+				var r *SolveResult
+				if j.lite != "" {
+					// first attempt without the definitions of opaque spec functions (fewer hypotheses:
+					// a refutation stands; anything else is retried with them)
+					r = s.SolveLite(j.o.Name, j.lite)
+				}
+				if r == nil {
+					r = s.Solve(j.o.Name, j.script, j.o.ExpectSat)
+				}
 				mu.Lock()
 				results[j.o] = r
 				if j.o.ExpectSat && r.Status == "sat" {
@@ -386,9 +459,18 @@ func (s *Solver) DischargeAll(x *Exec, obls []*Obl, par int) []*OblResult {
 			mu.Unlock()
 			continue
 		}
-		sc := x.script(o, o.Inputs)
+		sc := x.script(o, o.Inputs, false)
 		sizes[o] = len(sc)
-		jobs <- job{o, sc}
+		lite := ""
+		if !o.ExpectSat {
+			for _, p := range o.PC {
+				if p.Reveal {
+					lite = x.script(o, nil, true)
+					break
+				}
+			}
+		}
+		jobs <- job{o, sc, lite}
 	}
 	close(jobs)
 	wg.Wait()
